@@ -19,6 +19,7 @@ var c05Pool = []string{
 	"1e6144", "9.999999999999999999999999999999999e6144", "1e-6143", "1e400", "1e-400", "1e6000", "1e-6000", "-1e6000",
 	"123456789012345678901234567890.1234", "-123456789012345678901234567890.1234", "3.14159", "2.718281828459045", "6", "9", "12", "0.25", "0.125", "1e3", "33", "99", "-7", "-3", "-0.1", "4", "8", "5",
 	"15E-1", "-25E-1", "1E-40", "25e-1", "7E+0", "3.50E0",
+	"-9223372036854775808", "-9223372036854775809", "-9223372036854775807", "-2147483648", "2147483647", "4294967295", "-18446744073709551616", "4e-324", "5e-324", "2e-400",
 }
 
 var c05Ops = []string{"+", "-", "*", "/", "//", "%", "==", "!=", "<", "<=", ">", ">="}
